@@ -178,5 +178,6 @@ def run(ctx, rep):
     popbalance.r01b(ctx, rep)
     prelude.r01f(ctx, rep)
     prelude.r01g(ctx, rep)
+    prelude.r01h(ctx, rep)
     rep.not_decided += ["values computed by any program (the property as stated)", "a handler that is present but wrong",
                         "left-to-right operand order beyond the order of emitted pushes"]
